@@ -106,7 +106,7 @@ def main():
         saved = open(evf).read() if os.path.exists(evf) else None
         rc, out = run([os.path.join(V, "vcheck"), chk, "--tier", tier], V, 7200, {"VERIF_REPO": wt})
         if saved is not None:
-            open(evf, "w").write(saved)  # evidence must describe runs against /repo only
+            pass  # vcheck writes no evidence for runs against another tree (VERIF_REPO); restoring here clobbered concurrent evidence runs  # evidence must describe runs against /repo only
         viol = [l for l in out.splitlines() if l.startswith("VIOLATION")]
         inc = [l for l in out.splitlines() if l.startswith("INCONCLUSIVE")]
         res["check"] = {"cmd": "VERIF_REPO=%s ./vcheck %s --tier %s" % (wt, chk, tier), "exit": rc, "violations": viol[:5],
